@@ -422,3 +422,126 @@ Proof.
 Qed.
 Example m0_compiles : exists L, compile m0 = inr L.
 Proof. eexists. vm_compute. reflexivity. Qed.
+
+(* ---------- a boolean decision of the premises (evaluated on every tied model to count how often the theorem applies) *)
+Definition ext_le (a b : xq) : bool :=
+  match a, b with
+  | NaN, _ | _, NaN => false
+  | NInf, _ => true
+  | _, PInf => true
+  | Fin p, Fin q => q_leb p q
+  | _, _ => false
+  end.
+Lemma ext_le_lo l l' x : ext_le l l' = true -> xq_le_R l' x -> xq_le_R l x.
+Proof.
+  destruct l as [p| | |], l' as [q| | |]; cbn [ext_le xq_le_R]; intros H Hx; try discriminate; try exact I; try contradiction.
+  apply q_leb_true in H. lra.
+Qed.
+Lemma ext_le_hi u' u x : ext_le u' u = true -> R_le_xq x u' -> R_le_xq x u.
+Proof.
+  destruct u' as [p| | |], u as [q| | |]; cbn [ext_le R_le_xq]; intros H Hx; try discriminate; try exact I; try contradiction.
+  apply q_leb_true in H. lra.
+Qed.
+Definition type_sub (t' t : vtype) : bool :=
+  match t', t with
+  | TBoolean, TBoolean => true
+  | TIntegerRange l' u', TIntegerRange l u => Z.leb l l' && Z.leb u' u
+  | TReal l' u', TReal l u => ext_le l l' && ext_le u' u
+  | TNonNegativeReal l' u', TNonNegativeReal l u => ext_le l l' && ext_le u' u
+  | _, _ => false
+  end.
+Lemma type_sub_sound t' t x : type_sub t' t = true -> in_dom t' x -> in_dom t x.
+Proof.
+  destruct t' as [|l' u'|l' u'|l' u'], t as [|l u|l u|l u]; cbn [type_sub in_dom]; intros H Hx; try discriminate; try exact Hx.
+  - apply andb_true_iff in H as [H1 H2]. apply Z.leb_le in H1. apply Z.leb_le in H2.
+    destruct Hx as [z [-> [Z1 Z2]]]. exists z. split; [reflexivity|lia].
+  - apply andb_true_iff in H as [H1 H2]. destruct Hx as [X0 [X1 X2]].
+    split; [exact X0|]. split; [exact (ext_le_lo _ _ _ H1 X1)|exact (ext_le_hi _ _ _ H2 X2)].
+  - apply andb_true_iff in H as [H1 H2]. destruct Hx as [X1 X2].
+    split; [exact (ext_le_lo _ _ _ H1 X1)|exact (ext_le_hi _ _ _ H2 X2)].
+Qed.
+
+Fixpoint nodup_names (l : list string) : bool :=
+  match l with [] => true | x :: r => negb (set_mem r x) && nodup_names r end.
+Lemma nodup_names_sound l : nodup_names l = true -> NoDup l.
+Proof.
+  induction l as [|x r IH]; intros H; [constructor|]. cbn [nodup_names] in H. apply andb_true_iff in H as [H1 H2].
+  constructor; [|exact (IH H2)]. intros I. apply set_mem_In in I. rewrite I in H1. discriminate.
+Qed.
+Definition wf_vtypeb (t : vtype) : bool :=
+  match t with TIntegerRange l u => Z.leb i32_min l && Z.leb u i32_max | _ => true end.
+
+Lemma is_logic_value_dom s s' : s_dom s = s_dom s' -> forall e, is_logic_value s e = is_logic_value s' e.
+Proof.
+  intros E. induction e; cbn [is_logic_value]; try reflexivity.
+  - unfold is_boolean_var. rewrite E. reflexivity.
+  - exact IHe.
+  - destruct op; try reflexivity. exact IHe.
+Qed.
+Lemma try_normalize_dom s s' l c r : s_dom s = s_dom s' ->
+  try_normalize_logic_constraint s l c r = try_normalize_logic_constraint s' l c r.
+Proof. intros E. unfold try_normalize_logic_constraint. rewrite !(is_logic_value_dom s s' E). reflexivity. Qed.
+
+Definition probe_state (D : list (string * dvar)) : lst := mkS [] [] [] D (from_domain []).
+Definition aff_constrb (D : list (string * dvar)) (U : list string) (c : constr) : bool :=
+  negb (c_assert c) &&
+  match fs_pure (c_lhs c), fs_pure (c_rhs c) with
+  | Some l, Some r =>
+      match try_normalize_logic_constraint (probe_state D) l (c_cmp c) r with
+      | None => match fs_pure (BinOp Sub l r) with
+                | Some e => affine e && forallb (set_mem U) (avars e)
+                | None => false
+                end
+      | Some _ => false
+      end
+  | _, _ => false
+  end.
+Lemma forallb_mem_incl U l : forallb (set_mem U) l = true -> incl l U.
+Proof. intros H k Hk. apply set_mem_In. exact (proj1 (forallb_forall _ _) H k Hk). Qed.
+Lemma aff_constrb_sound D U c : aff_constrb D U c = true -> aff_constr D U c.
+Proof.
+  unfold aff_constrb. intros H. apply andb_true_iff in H as [NA H]. apply negb_true_iff in NA.
+  destruct (fs_pure (c_lhs c)) as [l|] eqn:Fl; [|discriminate]. destruct (fs_pure (c_rhs c)) as [r|] eqn:Fr; [|discriminate].
+  destruct (try_normalize_logic_constraint (probe_state D) l (c_cmp c) r) eqn:TN; [discriminate|].
+  destruct (fs_pure (BinOp Sub l r)) as [e|] eqn:Fe; [|discriminate]. apply andb_true_iff in H as [Af Av].
+  split; [exact NA|]. exists l, r, e. split; [exact Fl|]. split; [exact Fr|]. split.
+  - intros s Hs. rewrite (try_normalize_dom s (probe_state D)); [exact TN|exact Hs].
+  - split; [exact Fe|]. split; [exact Af|apply forallb_mem_incl; exact Av].
+Qed.
+
+Definition affine_modelb (m : model) : bool :=
+  let U := map fst (m_domain m) in
+  let an := analyze (decl_types m) (m_constraints m) in
+  nodup_names U
+  && forallb (fun p : string * dvar => wf_vtypeb (dv_type (snd p)) && dv_used (snd p)
+                && type_sub (tighten_type an (fst p) (dv_type (snd p))) (dv_type (snd p))) (m_domain m)
+  && forallb (fun c => plain (c_lhs c) && plain (c_rhs c) && aff_constrb (cdom m) U c) (m_constraints m)
+  && plain (m_obj m)
+  && match fs_pure (m_obj m) with Some o => affine o && forallb (set_mem U) (avars o) | None => false end.
+
+Theorem affine_modelb_sound m : affine_modelb m = true -> affine_model m.
+Proof.
+  unfold affine_modelb. cbv zeta. intros H.
+  apply andb_true_iff in H as [H Ho]. apply andb_true_iff in H as [H Hpo]. apply andb_true_iff in H as [H Hc].
+  apply andb_true_iff in H as [Hnd Hd].
+  assert (Hd' : forall n d, In (n, d) (m_domain m) ->
+            wf_vtypeb (dv_type d) = true /\ dv_used d = true /\
+            type_sub (tighten_type (analyze (decl_types m) (m_constraints m)) n (dv_type d)) (dv_type d) = true).
+  { intros n d Hin. pose proof (proj1 (forallb_forall _ _) Hd (n, d) Hin) as K. cbn [fst snd] in K.
+    apply andb_true_iff in K as [K K3]. apply andb_true_iff in K as [K1 K2]. auto. }
+  constructor.
+  - split; [apply nodup_names_sound; exact Hnd|]. intros n d Hin. destruct (Hd' n d Hin) as [W _].
+    unfold PublishSound.wf_vtype. destruct (dv_type d); try exact I. cbn [wf_vtypeb] in W. apply andb_true_iff in W as [W1 W2].
+    apply Z.leb_le in W1. apply Z.leb_le in W2. split; assumption.
+  - intros n d Hin. exact (proj1 (proj2 (Hd' n d Hin))).
+  - intros c Hin. pose proof (proj1 (forallb_forall _ _) Hc c Hin) as K. apply andb_true_iff in K as [K _]. apply andb_true_iff in K. exact K.
+  - exact Hpo.
+  - apply Forall_forall. intros c Hin. pose proof (proj1 (forallb_forall _ _) Hc c Hin) as K. apply andb_true_iff in K as [_ K].
+    apply aff_constrb_sound. exact K.
+  - destruct (fs_pure (m_obj m)) as [o|]; [|discriminate]. apply andb_true_iff in Ho as [A V].
+    exists o. split; [reflexivity|]. split; [exact A|apply forallb_mem_incl; exact V].
+  - intros n d x Hin Hx. destruct (Hd' n d Hin) as [_ [_ T]]. exact (type_sub_sound _ _ x T Hx).
+Qed.
+
+Example m0_affine_b : affine_modelb m0 = true.
+Proof. vm_compute. reflexivity. Qed.
